@@ -106,6 +106,10 @@ func loopPos(L *Loop) token.Pos {
 	best := token.NoPos
 	for b := range L.Blocks {
 		for _, in := range b.Instrs {
+			switch in.(type) {
+			case *ssa.Phi, *ssa.DebugRef:
+				continue // positioned at the variable's declaration, possibly before the loop
+			}
 			if p := in.Pos(); p.IsValid() && (best == token.NoPos || p < best) {
 				best = p
 			}
